@@ -34,6 +34,8 @@ def _menu(P, raw):
         "/other/x.ics",                    # 8 outside the namespace (when a prefix is set)
         P + c + "/./a.ics",                # 9 dotted variant
         raw,                               # 10 arbitrary short string
+        P + c + "/a.ics;v=2",              # 11 ';' parameter syntax on an existing name: a DIFFERENT, non-existent member
+        P + c + "/a.ics?x=1",              # 12 query part: addresses a.ics itself
     ]
 
 
@@ -134,7 +136,7 @@ def _expect(app, decoded_href, P, want_ct):
 
 def h_multiget(items: List[int], raw: str, c_b: bytes, dup: bool) -> bool:
     """
-    pre: len(items) <= ctx.b.nhref and all(0 <= i <= 10 for i in items) and len(raw) <= ctx.b.rlen and len(c_b) <= 2
+    pre: len(items) <= ctx.b.nhref and all(0 <= i <= 12 for i in items) and len(raw) <= ctx.b.rlen and len(c_b) <= 2
     post: _
     """
     return run(body_multiget, items, raw, c_b, dup)
